@@ -193,6 +193,31 @@ class Runner:
         finally:
             shutil.rmtree(d, ignore_errors=True)
 
+    def tool_keyconv_multi(self, op):
+        """Several key files in one key2jwk invocation: the i-th JWK must denote the i-th file's key."""
+        d = tempfile.mkdtemp(dir=self.work)
+        try:
+            kds = op["keys"]
+            files = []
+            for i, kd in enumerate(kds):
+                src = os.path.join(d, "in%d.key" % i)
+                with open(src, "wb") as f:
+                    f.write(self.drv_export("key", kd))
+                files.append(src)
+            rc1, out1, err1 = self.run([os.path.join(self.tools, "key2jwk"), "-q", "-o", "-"] + files)
+            try:
+                keys = json.loads(out1.decode()).get("keys", [])
+            except Exception:
+                keys = []
+            ev = dict(e="ToolKeyConvMulti", n=len(kds), exit1=rc1, nkeys1=len(keys),
+                      want=[dict(kty=k["kty"], bits=k["bits"], priv=k["priv"]) for k in kds], imps=[])
+            if rc1 == 0 and len(keys) == len(kds):
+                for k, kd in zip(keys, kds):
+                    ev["imps"].append(self.import_check(json.dumps(dict(keys=[k])), kd, d))
+            return ev
+        finally:
+            shutil.rmtree(d, ignore_errors=True)
+
     def run_case(self, case, out):
         cid = case[0]
         out.write(json.dumps(dict(e="Case", id=cid, n=0)) + "\n")
@@ -204,6 +229,8 @@ class Runner:
                 ev = self.tool_roundtrip(op)
             elif k == "ToolKeyConv":
                 ev = self.tool_keyconv(op)
+            elif k == "ToolKeyConvMulti":
+                ev = self.tool_keyconv_multi(op)
             else:
                 raise RuntimeError("unknown tool op " + k)
             ev.pop("pem", None)
